@@ -138,5 +138,17 @@ def Doc.Designates (D : Doc) (retrieval : Uri.Url) (s : NodeId) (ref : String) (
     D.Identifies retrieval (Uri.toString (Uri.dropFragment (Uri.resolveReference bu refURI))) r ∧
     D.FragTarget r (Uri.resolveReference bu refURI).fragment t
 
+/-- the same when other documents have been resolved too (`docs`: each with its retrieval URI): the
+    fragment-less URI identifies a schema resource of the document the reference occurs in, or the
+    root of one of the documents (by its retrieval URI or by the URI its own `$id` gives it), and the
+    fragment selects inside that document -/
+def DesignatesAmong (docs : List (Doc × Uri.Url)) (D : Doc) (retrieval : Uri.Url) (s : NodeId) (ref : String)
+    (t : NodeId) : Prop :=
+  ∃ bu refURI, D.BaseUri retrieval s bu ∧ Uri.parse ref = .ok refURI ∧
+    ((∃ r, D.Identifies retrieval (Uri.toString (Uri.dropFragment (Uri.resolveReference bu refURI))) r ∧
+        D.FragTarget r (Uri.resolveReference bu refURI).fragment t) ∨
+     (∃ e ∈ docs, e.1.Identifies e.2 (Uri.toString (Uri.dropFragment (Uri.resolveReference bu refURI))) e.1.root ∧
+        e.1.FragTarget e.1.root (Uri.resolveReference bu refURI).fragment t))
+
 end Spec
 end JSV
